@@ -51,19 +51,17 @@ Proof.
   induction l as [|x tl IH]; cbn [zm_sort In]; [tauto|]. rewrite zm_insert_In, IH. intuition.
 Qed.
 
-(* without an entry answered (false, nil) the loop is a plain check of every id *)
+(* the loop is a plain check of every id *)
 Lemma zm_verify_loop_all : forall reg sigs ids,
-  (forall id, In id ids -> zm_last_res id sigs <> ZsInvalid) ->
   zm_verify_loop reg sigs ids = true ->
   forall id, In id ids -> id <> 0 /\ In id reg /\ zm_last_res id sigs = ZsValid.
 Proof.
-  induction ids as [|x tl IH]; intros Hni Hv id Hin; [destruct Hin|].
+  induction ids as [|x tl IH]; intros Hv id Hin; [destruct Hin|].
   cbn [zm_verify_loop] in Hv.
   destruct ((x =? 0) || negb (zm_mem x reg)) eqn:E; [discriminate|].
   apply orb_false_iff in E. destruct E as [E0 Er]. apply Z.eqb_neq in E0. apply negb_false_iff, zm_mem_In in Er.
   destruct (zm_last_res x sigs) eqn:ER; try discriminate.
-  - destruct Hin as [<-|Hin]; [auto|]. apply IH; auto. intros i Hi. apply Hni. right. exact Hi.
-  - exfalso. apply (Hni x (or_introl eq_refl)). exact ER.
+  destruct Hin as [<-|Hin]; [auto|]. apply IH; auto.
 Qed.
 
 (* the entries mint looks at: the first numAuth when more are supplied *)
@@ -113,24 +111,19 @@ Proof.
   - exists pool. repeat split; reflexivity.
 Qed.
 
-(* quorum: outside the trigger (no counted entry with Verify = (false, nil)) a mint implies
-   threshold-many distinct registered authorizers, each with a valid signature in the payload *)
-Lemma zm_quorum_partial : forall st client p pick st' tr paid cred,
+(* quorum: a mint implies threshold-many distinct registered authorizers, each with a valid
+   signature in the payload *)
+Lemma zm_quorum : forall st client p pick st' tr paid cred,
   zm_mint st client p pick = (st', ZmMinted tr paid cred) ->
-  (forall s, In s (zm_counted st p) -> zs_res s <> ZsInvalid) ->
   exists ids, NoDup ids /\ zm_threshold (zm_pbits st) (zm_count st) <= Z.of_nat (length ids) /\
     forall id, In id ids -> id <> 0 /\ In id (zm_reg st) /\
       exists s, In s (zp_sigs p) /\ zs_id s = id /\ zs_res s = ZsValid.
 Proof.
-  intros st client p pick st' tr paid cred H Hni.
+  intros st client p pick st' tr paid cred H.
   destruct (zm_mint_minted _ _ _ _ _ _ _ _ H) as (_ & _ & _ & _ & _ & _ & _ & Hv & Hth & _).
   exists (zm_ids (zm_counted st p)). split; [apply zm_ids_NoDup|]. split; [exact Hth|].
-  assert (Hlast : forall id, zm_last_res id (zm_counted st p) <> ZsInvalid).
-  { intros id HI. unfold zm_last_res in HI.
-    destruct (zm_last_res_spec id (zm_counted st p) ZsError _ HI) as [He|(s & Hs & _ & Hres)]; [discriminate|].
-    apply (Hni s Hs). exact Hres. }
   intros id Hin.
-  destruct (zm_verify_loop_all _ _ _ (fun i _ => Hlast i) Hv id (proj2 (zm_sort_In _ _) Hin)) as (H0 & Hr & Hres).
+  destruct (zm_verify_loop_all _ _ _ Hv id (proj2 (zm_sort_In _ _) Hin)) as (H0 & Hr & Hres).
   split; [exact H0|]. split; [exact Hr|].
   unfold zm_last_res in Hres.
   destruct (zm_last_res_spec id (zm_counted st p) ZsError _ Hres) as [He|(s & Hs & Hid & Hr2)]; [discriminate|].
@@ -140,34 +133,14 @@ Qed.
 (* 0.7 as a float64 bit pattern *)
 Definition zm_p07 : Z := 4604480259023595110.
 
-(* witness: one registered authorizer, nobody signs, the submitter attaches a well-formed
-   signature that does not verify: 50 tokens minus the fee are minted *)
+(* the payload that minted before verifySignatures was repaired (one registered authorizer, the only
+   entry a well-formed signature that does not verify) is refused *)
 Definition zm_wit_state : zm_state := fst (zm_step (zm_init zm_p07 10 6 0) (ZmRegister true 1)).
 Definition zm_wit_payload : zm_payload :=
   {| zp_receiver := 100; zp_amount := 50; zp_nonce := 1; zp_sigs := [{| zs_id := 1; zs_res := ZsInvalid |}] |}.
 
-Lemma zm_wit_mints :
-  snd (zm_mint zm_wit_state 100 zm_wit_payload 1) = ZmMinted [(zm_wallet, 100, 44)] 1 6.
+Lemma zm_wit_refused : snd (zm_mint zm_wit_state 100 zm_wit_payload 1) = ZmFail.
 Proof. vm_compute. reflexivity. Qed.
-
-Definition zm_full_quorum_statement : Prop :=
-  forall st client p pick st' tr paid cred,
-    zm_mint st client p pick = (st', ZmMinted tr paid cred) ->
-    exists ids, NoDup ids /\ zm_threshold (zm_pbits st) (zm_count st) <= Z.of_nat (length ids) /\
-      forall id, In id ids -> id <> 0 /\ In id (zm_reg st) /\
-        exists s, In s (zp_sigs p) /\ zs_id s = id /\ zs_res s = ZsValid.
-
-Lemma zm_quorum_refuted : ~ zm_full_quorum_statement.
-Proof.
-  intros H.
-  destruct (zm_mint zm_wit_state 100 zm_wit_payload 1) as [st' out] eqn:E.
-  pose proof zm_wit_mints as W. rewrite E in W. cbn [snd] in W. subst out.
-  destruct (H _ _ _ _ _ _ _ _ E) as (ids & Hnd & Hth & Hall).
-  assert (T : zm_threshold (zm_pbits zm_wit_state) (zm_count zm_wit_state) = 1) by (vm_compute; reflexivity).
-  rewrite T in Hth. destruct ids as [|id tl]; [cbn in Hth; lia|].
-  destruct (Hall id (or_introl eq_refl)) as (_ & _ & s & Hs & _ & Hres).
-  cbn in Hs. destruct Hs as [<-|[]]. discriminate.
-Qed.
 
 (* the submitter is the receiver; the receiver gets amount - share from the contract wallet, with
    share = max_fee / number of counted entries; the share goes to one of the listed signers *)
@@ -177,7 +150,7 @@ Lemma zm_mint_effect : forall st client p pick st' tr paid cred,
   zp_receiver p = client /\
   tr = [(zm_wallet, client, zp_amount p - share)] /\ share <= zp_amount p /\
   zm_min_mint st <= zp_amount p /\
-  In paid (map zs_id (zm_counted st p)) /\
+  In paid (map zs_id (zm_counted st p)) /\ In paid (zm_reg st) /\
   (cred = share \/ cred = 0) /\
   exists pool, zm_pool_get paid (zm_pools st) = Some pool /\
     (cred = 0 <-> share = 0 \/ zl_stake pool < zm_min_stake st) /\
@@ -188,6 +161,8 @@ Proof.
   intros st client p pick st' tr paid cred H share.
   destruct (zm_mint_minted _ _ _ _ _ _ _ _ H) as (_ & _ & _ & Hr & Hmin & _ & _ & Hv & _ & Htr & Hsh & Hpaid & Hmem & pool & Hpool & Hcred & Hst).
   subst paid. apply zm_mem_In in Hmem.
+  assert (Hreg : In pick (zm_reg st)).
+  { apply (zm_verify_loop_all _ _ _ Hv pick). apply zm_sort_In, zm_ids_In. exact Hmem. }
   fold share in Hcred, Htr, Hsh.
   repeat split; auto.
   - rewrite Hcred. destruct ((share =? 0) || (zl_stake pool <? zm_min_stake st)); auto.
@@ -207,23 +182,6 @@ Proof.
         -- destruct (k =? id); auto.
     + rewrite Hst. reflexivity.
     + rewrite Hst. reflexivity.
-Qed.
-
-(* outside the trigger the authorizer that receives the share is a registered one *)
-Lemma zm_fee_receiver_registered : forall st client p pick st' tr paid cred,
-  zm_mint st client p pick = (st', ZmMinted tr paid cred) ->
-  (forall s, In s (zm_counted st p) -> zs_res s <> ZsInvalid) ->
-  In paid (zm_reg st).
-Proof.
-  intros st client p pick st' tr paid cred H Hni.
-  destruct (zm_mint_minted _ _ _ _ _ _ _ _ H) as (_ & _ & _ & _ & _ & _ & _ & Hv & _ & _ & _ & Hpaid & Hmem & _).
-  subst paid. apply zm_mem_In in Hmem.
-  assert (Hlast : forall id, zm_last_res id (zm_counted st p) <> ZsInvalid).
-  { intros id HI. unfold zm_last_res in HI.
-    destruct (zm_last_res_spec id (zm_counted st p) ZsError _ HI) as [He|(s & Hs & _ & Hres)]; [discriminate|].
-    apply (Hni s Hs). exact Hres. }
-  apply (zm_verify_loop_all _ _ _ (fun i _ => Hlast i) Hv pick).
-  apply zm_sort_In, zm_ids_In. exact Hmem.
 Qed.
 
 (* a refused request changes nothing *)
